@@ -155,15 +155,17 @@ TNull ==
 (* positions obtained this way are positions "however obtained" for the derived-state       *)
 (* properties.  The edit itself is specified here: the square gets the man (or is emptied),  *)
 (* nothing else changes, and the edit is refused iff it would leave the side NOT to move in  *)
-(* check.  Judged (PROP = C03) only while exactly one king per side stands on the board and  *)
-(* the kings are not adjacent; otherwise the logged state is followed.                       *)
+(* check.  Judged (PROP = C03) only when the result has exactly one king per side, not        *)
+(* adjacent to each other; otherwise the logged state is followed.                           *)
 KingsApart(b) == OneKingEach(b) /\ KingSq(b, "w") \notin KingT[KingSq(b, "b")]
 
 TEdit ==
   /\ IsEvent("Edit")
   /\ LET r  == Rec[l]
          b2 == [pos.b EXCEPT ![r.esq] = r.man]          \* r.man = "." for clear_square
-         judged == PROP = "C03" /\ KingsApart(pos.b) /\ KingsApart(b2)
+         \* (a king is relocated by setting the new one first and clearing the old one afterwards: the board in between
+         \* holds two kings of one colour and is followed without being judged)
+         judged == PROP = "C03" /\ KingsApart(b2) /\ (KingsApart(pos.b) \/ r.man = ".")
      IN /\ judged => (r.ok = ~InCheck(b2, Other(pos.stm))) = TRUE
         /\ IF r.ok
            THEN LET p == EvPos(r)
